@@ -22,6 +22,7 @@ import numpy as np
 from common import VERIF, jsonable
 
 HEADER = "From PyOMA.Model Require Import M_pick."
+HEADER_MPE = "From PyOMA.Model Require Import M_pick M_mpe M_pick_mpe."  # dialog -> C11's extraction (whole pole)
 BTN = {1: "BLeft", 2: "BMiddle", 3: "BRight"}
 NAN = float("nan")
 
@@ -76,6 +77,17 @@ def _apply(o, a, phys):
         elif k == "ko":
             ev = _Ev(key=a[1], name="key_%s_event" % a[2], inaxes=o.ax2, xdata=None, ydata=None, x=100, y=100, guiEvent=None, canvas=None)
             _dispatch(o, "key_%s_event" % a[2], ev, o.on_key_press if a[2] == "press" else o.on_key_release)
+        elif k in ("mv", "sc", "br"):
+            # pointer motion / scrolling / button release over the axes: delivered, as the canvas does, ONLY to callbacks the dialog
+            # registered for that event name (the dialog's own _initialize_gui registers none; with the minimal stub nothing is connected)
+            name = {"mv": "motion_notify_event", "sc": "scroll_event", "br": "button_release_event"}[k]
+            mods = frozenset(["shift"]) if phys else frozenset()
+            canvas = getattr(getattr(o, "fig", None), "canvas", None)
+            button = None if k == "mv" else (a[1] if k == "sc" else _button(a[1]))
+            ev = _Ev(name=name, canvas=canvas, guiEvent=None, button=button, xdata=np.float64(a[2]), ydata=np.float64(a[3]), inaxes=o.ax2,
+                     key="shift" if phys else None, modifiers=mods, dblclick=False, x=100, y=100, step=(1 if a[1] == "up" else -1) if k == "sc" else 0)
+            for cb in list(_SESSION["conn"].get(name) or []):
+                cb(ev)
         elif k == "m":  # a menu entry of the dialog (show / hide unstable poles, help): selects nothing
             cmd = _SESSION["menu"].get(a[1])
             if cmd is None:
@@ -262,13 +274,20 @@ def restore():
         M.tk, M.Figure, M.FigureCanvasTkAgg, M.NavigationToolbar2Tk = _ORIG["tk"], _ORIG["Figure"], _ORIG["canvas"], _ORIG["toolbar"]
 
 
+_FORM_SFP = {"n": 0}
+
+
 def drive(algo, plot, script, enum=False, freqlim=None):
     """Construct the real SelFromPlot on `algo` (with the display option freqlim), play `script`; returns (recorded
     snapshots, exception kinds, .result)."""
     from pyoma2.support.sel_from_plot import SelFromPlot
 
     _SESSION.update(script=script, rec=None, exc=None, obj=None, enum=enum)
-    obj = SelFromPlot(algo, freqlim=None if freqlim is None else tuple(freqlim), plot=plot)
+    _FORM_SFP["n"] += 1
+    if _FORM_SFP["n"] % 4 == 0:  # every fourth dialog is constructed positionally, in the published order (algo, freqlim, plot)
+        obj = SelFromPlot(algo, None if freqlim is None else tuple(freqlim), plot)
+    else:
+        obj = SelFromPlot(algo, freqlim=None if freqlim is None else tuple(freqlim), plot=plot)
     return _SESSION["rec"], _SESSION["exc"], getattr(obj, "result", "missing")
 
 
@@ -382,6 +401,15 @@ class Tab:
         return "[%s]" % "; ".join("[%s]" % "; ".join("None" if f is None else "Some %s" % cq(f) for f in col) for col in self.cols)
 
 
+def coq_rows(T):
+    """the pole table ROW-major, as Model/M_mpe.v (C11) reads it"""
+    def cq(f):
+        return "(mkq (%d) %d)" % (f.numerator, f.denominator)
+
+    n, m = T.shape
+    return "[%s]" % "; ".join("[%s]" % "; ".join("None" if T.cols[c][r] is None else "Some %s" % cq(T.cols[c][r]) for c in range(m)) for r in range(n))
+
+
 def oracle_step(T, st, a, st2):
     """None if st -a-> st2 is what the property text permits, else (key suffix, message)."""
     sh, sel = st
@@ -453,7 +481,7 @@ def coq_action(a):
         return "KeyDown"
     if k == "ku":
         return "KeyUp"
-    if k in ("ko", "m", "close"):  # other key, menu entry, closing the window: no selecting action
+    if k in ("ko", "m", "close", "mv", "sc", "br"):  # other key, menu entry, closing the window, motion, scroll, button release: no selecting action
         return "KeyOther"
     if k == "c":
         return "(Click %s %s %s)" % (BTN.get(a[1], "BOther"), coq_q(a[2]), coq_q(a[3]))
@@ -543,14 +571,35 @@ def _shard(n):
     return max(8, -(-n // 14))
 
 
-def evaluate(ctx, stores):
+class Batch:
+    """All Coq expressions of one run, evaluated in ONE sharded coqc pass (start-up dominates), then judged."""
+
+    def __init__(self):
+        self.parts = []
+
+    def add(self, exprs, judge):
+        self.parts.append((list(exprs), judge))
+
+    def run(self, ctx):
+        exprs = [e for es, _ in self.parts for e in es]
+        res = ctx.coq_eval(HEADER_MPE, exprs, shard=_shard(len(exprs)))
+        k = 0
+        for es, judge in self.parts:
+            judge(res[k : k + len(es)])
+            k += len(es)
+
+
+def evaluate(ctx, stores, batch):
     """Run the Coq checker over every distinct recorded transition."""
     exprs, meta = [], []
     for st in stores:
         for e, m in st.exprs():
             exprs.append(e)
             meta.append(m)
-    res = ctx.coq_eval(HEADER, exprs, shard=_shard(len(exprs)))
+    batch.add(exprs, lambda res: _judge_checker(ctx, meta, res))
+
+
+def _judge_checker(ctx, meta, res):
     nsame = ntot = 0
     for (store, part), s in zip(meta, res):
         toks = s.split(" ") if s else []
@@ -851,6 +900,8 @@ def random_action(rng, variant, A, sel_hint):
         return ("co", rng.choice([1, 2, 3, 8]))
     if r < 0.28 and variant != "FDD":  # a menu entry of the stabilisation-chart dialog
         return ("m", rng.choice(["Show unstable poles", "Hide unstable poles", "Help"]))
+    if r < 0.33:  # pointer motion, scrolling, a button release: events the dialog has no selecting reaction to
+        return inert_event(rng, [float(v) for v in (A if variant == "FDD" else A.flatten()) if not np.isnan(v)])
     b = rng.choice([1] * 11 + [3] * 3 + [2] * 5 + [8, 9])
     if variant == "FDD":
         pool = [float(v) for v in A]
@@ -869,6 +920,35 @@ def random_action(rng, variant, A, sel_hint):
     else:
         y = dy(rng, -3, ncol + 3)
     return ("c", b, float(x), float(y))
+
+
+def inert_event(rng, pool):
+    """An event that neither picks nor deselects nor changes the modifier: pointer motion, scrolling, a button release, another
+    key, a click with another button, a click outside the axes with a button other than the deselect-one button."""
+    x = (rng.choice(pool) if pool else 3.0) + rng.choice([0.0, 0.125, -0.5])
+    y = float(rng.randint(-1, 4))
+    k = rng.randrange(7)
+    if k == 0:
+        return ("mv", None, float(x), y)
+    if k == 1:
+        return ("sc", rng.choice(["up", "down"]), float(x), y)
+    if k == 2:
+        return ("br", rng.choice([1, 2, 3]), float(x), y)
+    if k == 3:
+        return ("ko", rng.choice(["control", "a", "alt", "escape", "shift+a"]), rng.choice(["press", "release"]))
+    if k == 4:
+        return ("c", rng.choice([8, 9]), float(x), y)
+    if k == 5:
+        return ("co", rng.choice([1, 2, 8]))
+    return ("mv", None, float(x) + 1.0, y + 0.5)
+
+
+def interleave_inert(rng, script, pool):
+    """The same acting events with 2..6 inert events inserted at random positions."""
+    out = list(script)
+    for _ in range(rng.randint(2, 6)):
+        out.insert(rng.randint(0, len(out)), inert_event(rng, pool))
+    return tuple(out)
 
 
 def random_script(rng, variant, A):
@@ -915,18 +995,50 @@ def inject(alg, A):
     alg.run_params.ordmin = 0
 
 
-def handover(ctx, store, setup, name, variant, script, rtol, hmeta, enum=False):
+# call forms of mpe_from_plot: keywords / fully positional, through the setup / on the algorithm object.  The positional order is the one of
+# the signatures as published - SSIdat|SSIcov|pLSCF(.._MS).mpe_from_plot(freqlim, rtol); FDD(.._MS).mpe_from_plot(freqlim, DF);
+# EFDD|FSDD|EFDD_MS.mpe_from_plot(DF1, DF2, cm, MAClim, sppk, npmax, freqlim); setup.mpe_from_plot(name, *the same) - written out here, never
+# read from the tree under test.
+CALL_FORMS = ["kw", "pos-setup", "kw", "pos-alg", "kw-alg", "kw", "pos-setup", "kw"]
+_FORM = {"n": 0}
+
+
+def handover(ctx, store, setup, name, variant, script, rtol, hmeta, enum=False, form=None):
     """setup.mpe_from_plot(name) with the scripted dialog; checks algorithm.result against the selection (oracle) and
     registers the model evaluation of the extraction (correspondence)."""
     alg = setup[name]
     _SESSION.update(script=script, rec=None, exc=None, obj=None, enum=enum)
+    if form is None:
+        form = CALL_FORMS[_FORM["n"] % len(CALL_FORMS)]
+        _FORM["n"] += 1
+    fl = None if store.freqlim is None else tuple(store.freqlim)
+    if form.startswith("pos") and rtol is None:
+        rtol = 1.0 / 64  # a positional call spells every argument out; not the default of either class
     kw = {} if rtol is None else dict(rtol=rtol)
-    if store.freqlim is not None:
-        kw["freqlim"] = tuple(store.freqlim)
+    if fl is not None:
+        kw["freqlim"] = fl
     if store.ordlim is not None:
         alg.run_params.ordmin, alg.run_params.ordmax = store.ordlim
+    ctx.hist("mpe_from_plot call form", form)
     try:
-        setup.mpe_from_plot(name, **kw)
+        if form == "kw":
+            setup.mpe_from_plot(name, **kw)
+        elif form == "kw-alg":
+            alg.mpe_from_plot(**kw)
+        elif form == "pos-setup":
+            setup.mpe_from_plot(name, fl, rtol)
+        else:
+            alg.mpe_from_plot(fl, rtol)
+        o_ = _SESSION["obj"]
+        want_fl = fl if fl is not None else (0.0, float(alg.fs) / 2)
+        got_fl = getattr(o_, "freqlim", None)
+        ok_fl = got_fl is not None and len(got_fl) == 2 and float(got_fl[0]) == float(want_fl[0]) and float(got_fl[1]) == float(want_fl[1])
+        ok_rt = rtol is None or float(getattr(alg.run_params, "rtol", float("nan"))) == float(rtol)
+        if not (ok_fl and ok_rt and getattr(o_, "plot", None) == variant):
+            ctx.fail("oracle", "%s.mpe_from_plot called %s with freqlim=%s, rtol=%s: the dialog was opened as plot=%r with freqlim=%r and run_params.rtol is %r"
+                     % (type(alg).__name__, {"kw": "with keywords", "kw-alg": "with keywords on the algorithm", "pos-setup": "positionally (name, freqlim, rtol)",
+                                             "pos-alg": "positionally (freqlim, rtol) on the algorithm"}[form], fl, rtol, getattr(o_, "plot", None), got_fl,
+                        getattr(alg.run_params, "rtol", None)), store.case(script, rtol=rtol, form=form), key="C16:%s:call-form" % variant)
     except Exception as e:
         rec = _SESSION["rec"]
         nf = len(ctx.failures)
@@ -967,7 +1079,10 @@ def handover(ctx, store, setup, name, variant, script, rtol, hmeta, enum=False):
     # correspondence of the extraction with M_pick.mpe_of_result on what the dialog returned
     r0 = obj.result
     hmeta.append((store, script, rtol if rtol is not None else (1e-2 if variant == "SSI" else 5e-2),
-                  [Fraction(float(f)) for f in r0[0]], [int(o) for o in r0[1]], [float(f) for f in np.asarray(res.Fn).reshape(-1)], oo))
+                  [Fraction(float(f)) for f in r0[0]], [int(o) for o in r0[1]], [float(f) for f in np.asarray(res.Fn).reshape(-1)], oo,
+                  dict(cls=type(alg).__name__, Xi=np.array(Xi, dtype=float), Phi=np.array(Phi), Fn_poles=A, Xi_poles=np.asarray(res.Xi_poles),
+                       Phi_poles=np.asarray(res.Phi_poles))))
+    ctx.hist("mpe_from_plot driven through", type(alg).__name__)
 
 
 def _same(a, b):
@@ -975,7 +1090,7 @@ def _same(a, b):
     return a.shape == b.shape and bool(np.all((a == b) | (np.isnan(a) & np.isnan(b))))
 
 
-def evaluate_handover(ctx, hmeta):
+def evaluate_handover(ctx, hmeta, batch):
     """One Coq expression per table: the model of the extraction on every (rtol, dialog result) recorded on it."""
     groups = {}
     for h in hmeta:
@@ -984,16 +1099,20 @@ def evaluate_handover(ctx, hmeta):
     for hs in groups.values():
         store = hs[0][0]
         items = "; ".join("(%s, ([%s], [%s]))" % (coq_q(rtol), "; ".join(coq_q(f) for f in fr), "; ".join("%d%%nat" % o for o in od))
-                          for _, _, rtol, fr, od, _, _ in hs)
+                          for _, _, rtol, fr, od, _, _, _ in hs)
         exprs.append("join \";\" (map (fun t => showM (mpe_of_result %s (fst t) (snd t))) [%s])" % (store.T.coq_table(), items))
         metas.append(hs)
-    res = ctx.coq_eval(HEADER, exprs, shard=_shard(len(exprs)))
+    batch.add(exprs, lambda res: _judge_handover(ctx, hmeta, metas, res))
+    evaluate_whole_pole(ctx, list(groups.values()), batch)
+
+
+def _judge_handover(ctx, hmeta, metas, res):
     for hs, line in zip(metas, res):
         outs = line.split(";")
         if len(outs) != len(hs):
             ctx.fail("correspondence", "model extraction printed %d results for %d hand-overs" % (len(outs), len(hs)), hs[0][0].case([]), key="C16:coq-output")
             continue
-        for (store, script, rtol, fr, od, Fn, oo), s in zip(hs, outs):
+        for (store, script, rtol, fr, od, Fn, oo, _), s in zip(hs, outs):
             case = store.case(script, rtol=rtol)
             if s == "raises":
                 ctx.fail("correspondence", "model extraction raises where the implementation returned", case, key="C16:%s:handover-corr" % store.variant)
@@ -1005,6 +1124,264 @@ def evaluate_handover(ctx, hmeta):
                 ctx.fail("correspondence", "extraction differs from M_pick.mpe_of_result: model (%s, %s), implementation (%s, %s)" % (mF, mO, Fn, oo), case,
                          key="C16:%s:handover-corr" % store.variant)
     ctx.extra["handovers_checked_in_coq"] = len(hmeta)
+
+
+def _parse_hand(s):
+    """showRes of M_mpe: 'E kind' | 'O f@id f@id ...|L o o ...'  ->  None | ([(f, id)], [o])"""
+    if not s.startswith("O "):
+        return None
+    a, b = s[2:].split("|")
+    vals = [(Fraction(*map(int, t.split("@")[0].split("/"))), int(t.split("@")[1])) for t in a.split(" ")] if a else []
+    oo = [int(t) for t in b[1:].split(" ") if t] if b.startswith("L") else None
+    return vals, oo
+
+
+def _deselect_free(script):
+    return not any((a[0] == "c" and a[1] in (2, 3)) or (a[0] == "co" and a[1] == 3) for a in script)
+
+
+def evaluate_whole_pole(ctx, groups, batch):
+    """Per table, two Coq expressions over Model/M_pick_mpe.v (the dialog handed to C11's extraction M_mpe.mpe_explicit, payload = cell
+    identifiers row*m + order):
+      showHandover  on every (rtol, dialog result) recorded: the implementation's mode k must be the WHOLE pole of the model's cell k -
+                    result.Fn[k], result.Xi[k], result.Phi[:, k] bit-equal to Fn_poles / Xi_poles / Phi_poles at that (row, order);
+      showFromPlot  on every (rtol, event history): the whole of mpe_from_plot with the present code's resolution of the dialog; compared
+                    as a multiset of (frequency, order, cell) for histories without deselections (where C16_pick_order_irrelevant leaves no
+                    freedom); histories with deselections are not evaluated here."""
+    exprs, metas = [], []
+    for hs in groups:
+        T = hs[0][0].T
+        n, m = T.shape
+        rows = coq_rows(T)
+        items = "; ".join("(%s, ([%s], [%s]))" % (coq_q(rtol), "; ".join(coq_q(f) for f in fr), "; ".join("%d%%nat" % o for o in od))
+                          for _, _, rtol, fr, od, _, _, _ in hs)
+        exprs.append("join \";\" (map (fun t => showHandover %d %d %s (fst t) (snd t)) [%s])" % (n, m, rows, items))
+        metas.append(("hand", hs))
+        hp = [h for h in hs if _deselect_free(h[1])]  # with deselections the specification leaves a choice: not evaluated
+        if hp:
+            acts = "; ".join("(%s, [%s])" % (coq_q(rtol), "; ".join(coq_action(a) for a in script)) for _, script, rtol, _, _, _, _, _ in hp)
+            exprs.append("join \";\" (map (fun t => showFromPlot %d %d %s (fst t) (snd t)) [%s])" % (n, m, rows, acts))
+            metas.append(("plot", hp))
+    batch.add(exprs, lambda res: _judge_whole_pole(ctx, metas, res))
+
+
+def _judge_whole_pole(ctx, metas, res):
+    npole = nplot = nsame = 0
+    for (kind, hs), line in zip(metas, res):
+        outs = line.split(";")
+        if len(outs) != len(hs):
+            ctx.fail("correspondence", "model hand-over printed %d results for %d hand-overs" % (len(outs), len(hs)), hs[0][0].case([]), key="C16:coq-output")
+            continue
+        for (store, script, rtol, fr, od, Fn, oo, X), s in zip(hs, outs):
+            case = store.case(script, rtol=rtol, cls=X["cls"])
+            m = store.T.shape[1]
+            got = _parse_hand(s)
+            if got is None or got[1] is None:
+                ctx.fail("correspondence", "%s: the model of mpe_from_plot (%s) gives %r where the implementation returned modes" % (X["cls"], kind, s), case,
+                         key="C16:%s:handover-pole" % store.variant)
+                continue
+            vals, mo = got
+            if kind == "hand":
+                npole += 1
+                bad = None
+                if mo != oo or len(vals) != len(Fn):
+                    bad = "order_out / number of modes: model %s, implementation %s" % (mo, oo)
+                else:
+                    for k, (f, cid) in enumerate(vals):
+                        r, c = divmod(cid, m)
+                        if float(f) != Fn[k] or c != oo[k]:
+                            bad = "mode %d: model %g@%d, implementation %g@%d" % (k, float(f), c, Fn[k], oo[k])
+                        elif not (_same(X["Fn_poles"][r, c], Fn[k]) and _same(X["Xi"][k], X["Xi_poles"][r, c]) and _same(X["Phi"][:, k], X["Phi_poles"][r, c, :])):
+                            bad = "mode %d (%g@%d): damping / shape are not those of the cell (row %d, order %d) the model extracts" % (k, Fn[k], c, r, c)
+                        if bad:
+                            break
+                if bad:
+                    ctx.fail("correspondence", "%s.mpe_from_plot differs from M_pick_mpe.handover (dialog result -> C11 extraction): %s" % (X["cls"], bad), case,
+                             key="C16:%s:handover-pole" % store.variant)
+            else:
+                nplot += 1
+                mine = Counter((float(f), cid % m, cid) for f, cid in vals)
+                impl = []
+                for k in range(len(Fn)):
+                    rows = [r for r in range(X["Fn_poles"].shape[0]) if _same(X["Fn_poles"][r, oo[k]], Fn[k]) and _same(X["Xi"][k], X["Xi_poles"][r, oo[k]])
+                            and _same(X["Phi"][:, k], X["Phi_poles"][r, oo[k], :])]
+                    impl.append((Fn[k], oo[k], rows[0] * m + oo[k] if rows else -1))
+                if mine == Counter(impl):
+                    nsame += 1
+                else:
+                    ctx.fail("correspondence", "%s.mpe_from_plot differs from M_pick_mpe.mpe_from_plot_impl on a history without deselections: model %s, implementation %s"
+                             % (X["cls"], sorted(mine.elements()), sorted(impl)), case, key="C16:%s:from-plot" % store.variant)
+    ctx.extra["whole_pole_handovers_checked_in_coq"] = npole
+    ctx.extra["mpe_from_plot_pipelines_checked_in_coq"] = nplot
+    ctx.extra["pipelines_equal_to_present_resolution"] = nsame
+
+
+# the parameter orders of the published signatures (hard-coded: a changed tree must not redefine them)
+FDD_FROM_PLOT_ORDER = ("freqlim", "DF")                                            # FDD / FDD_MS .mpe_from_plot
+EFDD_FROM_PLOT_ORDER = ("DF1", "DF2", "cm", "MAClim", "sppk", "npmax", "freqlim")  # EFDD / FSDD / EFDD_MS .mpe_from_plot
+FDD_MPE_ORDER = ("sel_freq", "DF")                                                 # FDD / FDD_MS .mpe
+EFDD_MPE_ORDER = ("sel_freq", "DF1", "DF2", "cm", "MAClim", "sppk", "npmax")       # EFDD / FSDD / EFDD_MS .mpe
+
+
+def _res_modes(res):
+    return {k: (None if getattr(res, k, None) is None else np.array(getattr(res, k))) for k in ("Fn", "Xi", "Phi")}
+
+
+def _same_modes(a, b):
+    return all((a[k] is None and b[k] is None) or (a[k] is not None and b[k] is not None and _same(a[k], b[k])) for k in ("Fn", "Xi", "Phi"))
+
+
+def fdd_handover(ctx, rng, algs, setup_of, stores, fdd_funcs):
+    """mpe_from_plot of every class with the singular-value dialog, session scripted through the real handlers.  Judged:
+    (a) the frequencies handed to FDD_mpe / EFDD_mpe are the selection (argument of the real call, observed by a pass-through wrapper);
+    (b) result.Fn / Xi / Phi afterwards are bit-equal to what the SAME object's non-interactive mpe(sel_freq = the selected lines, same
+        parameters) stores: the interactive path extracts the modes of exactly the lines picked, paired position by position;
+    (c) FDD / FDD_MS, lines picked at strict peaks of the first-to-second singular value ratio within +-DF: result.Fn is those lines,
+        exactly, and result.Phi[:, k] is the first singular vector at line k scaled to unit largest component (property text);
+    (d) positional and keyword call forms (published parameter order) give the same result."""
+    seen = {}
+    orig = {n: getattr(fdd_funcs, n) for n in ("FDD_mpe", "EFDD_mpe")}
+
+    def wrap(n):
+        sig = inspect.signature(orig[n])
+
+        def w(*a, **k):
+            seen[n] = list(sig.bind(*a, **k).arguments["sel_freq"])
+            return orig[n](*a, **k)
+
+        return w
+
+    try:
+        for n in orig:
+            setattr(fdd_funcs, n, wrap(n))
+        for nm in ("FDD", "EFDD", "FSDD", "FDD_MS", "EFDD_MS"):
+            alg, setup = algs[nm], setup_of[nm]
+            efdd = nm.startswith(("EFDD", "FSDD"))
+            freq = np.asarray(alg.result.freq, dtype=float)
+            df = float(freq[1] - freq[0])
+            S = np.asarray(alg.result.S_val)
+            ratio = S[0, 0, :] / S[1, 1, :]
+            for s in range(ctx.n(4, 12)):
+                DF = [0.1, 0.25, 0.15, 0.2][s % 4]
+                w = int(round(DF / df)) + 2
+                peaks = [k for k in range(w, len(freq) - w) if all(ratio[k] > ratio[j] for j in range(k - w, k + w + 1) if j != k)]
+                targets = [1.5, 6.8, 4.2] if s % 2 == 0 else [6.8, 1.5]
+                if not efdd and peaks:  # lines that are strict peaks of the band they are the centre of
+                    ks = rng.sample(peaks, min(len(peaks), rng.randint(2, 4)))
+                    targets = [float(freq[k]) for k in ks]
+                fl = None
+                if s % 2 == 1 or s == 0:
+                    # explicit band with both edges between two real grid lines (3/4 of the way to the next line); the clicks
+                    # just inside the edges designate the line just OUTSIDE the band (e.g. freqlim=(1, 7.56), click 7.557 -> 7.578)
+                    k1, k2 = int(round(1.0 / df)) + (s // 2), int(round(7.5 / df)) - (s // 2)
+                    fl = (float(freq[k1]) + 0.25 * df, float(freq[k2]) + 0.75 * df)
+                    if efdd:
+                        targets = targets + [fl[1] - 0.03 * df, fl[0] + 0.03 * df]
+                st = Store(ctx, "FDD", freq.tolist(), "real-run:%s" % nm, freqlim=fl)
+                stores.append(st)
+                jit = [0.0, 0.01, -0.02] if efdd else [0.0, 0.25 * df, -0.25 * df]
+                script = [("kd",)] + [("c", 1, f + rng.choice(jit), float(rng.randint(-40, 5))) for f in targets]
+                if s % 3 == 1:
+                    script.append(("c", 2, targets[0] + 0.3 * df, 0.0))
+                if s % 3 == 2:
+                    script.append(("c", 3, 0.0, 0.0))
+                    script.append(("mv", None, targets[0], 0.0))
+                script = add_quick_press(rng, tuple(script), 0.5)
+                if efdd:
+                    par = dict(DF1=[0.1, 0.15][s % 2], DF2=[1.0, 1.25][s % 2], cm=1, MAClim=[0.85, 0.9][s % 2], sppk=1, npmax=[6, 5][s % 2])
+                    pos = tuple(par[k] for k in EFDD_FROM_PLOT_ORDER[:-1]) + (fl,)
+                else:
+                    par = dict(DF=DF)
+                    pos = (fl, DF)
+                kw = dict(par, **({} if fl is None else dict(freqlim=fl)))
+                form = ["kw", "pos-setup", "pos-alg", "kw-alg"][s % 4]
+                draw = s == 0
+                if draw:
+                    set_mode(True)
+                _SESSION.update(script=script, rec=None, exc=None, obj=None, enum=bool(s % 2))
+                seen.clear()
+                err = None
+                ctx.hist("mpe_from_plot call form", form)
+                try:
+                    if form == "kw":
+                        setup.mpe_from_plot(nm, **kw)
+                    elif form == "kw-alg":
+                        alg.mpe_from_plot(**kw)
+                    elif form == "pos-setup":
+                        setup.mpe_from_plot(nm, *pos)
+                    else:
+                        alg.mpe_from_plot(*pos)
+                except Exception as e:  # the extraction itself (peak fitting) is not the subject here
+                    err = type(e).__name__
+                finally:
+                    if draw:
+                        set_mode(False)
+                rec, obj = _SESSION["rec"], _SESSION["obj"]
+                case = st.case(script, cls=type(alg).__name__, form=form, params=jsonable(par))
+                if not rec:
+                    ctx.fail("oracle", "%s.mpe_from_plot never opened the dialog (%s)" % (nm, err), case, key="C16:FDD:handover")
+                    continue
+                fin = st.add_trace(script, rec, getattr(obj, "result", "missing"))
+                ctx.count(dict(v=nm, real=True, s=script, draw=draw), nontrivial=True)
+                ctx.hist("real-run hand-over", "%s%s" % (nm, " draw" if draw else ""))
+                ctx.hist("mpe_from_plot driven through", type(alg).__name__)
+                if fin is None:
+                    continue
+                got = seen.get(("EFDD" if efdd else "FDD") + "_mpe")
+                if got is None or Counter(Fraction(float(f)) for f in got) != Counter(f for f, _ in fin[1]):
+                    ctx.fail("oracle", "%s.mpe_from_plot handed %s to the extraction, the dialog selection is %s" % (nm, got, fmt_sel(fin[1])), case,
+                             key="C16:FDD:handover")
+                    continue
+                want_fl = fl if fl is not None else (0.0, float(alg.fs) / 2)
+                got_fl = getattr(obj, "freqlim", None)
+                if not (got_fl is not None and len(got_fl) == 2 and float(got_fl[0]) == want_fl[0] and float(got_fl[1]) == want_fl[1] and getattr(obj, "plot", None) == "FDD"
+                        and all(getattr(alg.run_params, k, None) == v for k, v in par.items())):
+                    ctx.fail("oracle", "%s.mpe_from_plot called as %s with %s, freqlim=%s: the dialog shows %r and run_params hold %s" % (
+                        nm, form, par, fl, got_fl, {k: getattr(alg.run_params, k, None) for k in par}), case, key="C16:FDD:call-form")
+                    continue
+                if err is not None:
+                    ctx.hist("extraction after the dialog raised (not judged)", "%s %s" % (nm, err))
+                    continue
+                mine = _res_modes(alg.result)
+                lines = [float(f) for f, _ in fin[1]]
+                if len(np.asarray(mine["Fn"]).reshape(-1)) != len(lines):
+                    ctx.fail("oracle", "%s.mpe_from_plot: number of extracted modes differs from the number of selected lines" % nm, case, key="C16:FDD:handover")
+                    continue
+                # (b) the same object's non-interactive extraction at the selected lines, keywords and positionally
+                refs = []
+                for rform in ("kw", "pos"):
+                    try:
+                        if rform == "kw":
+                            alg.mpe(sel_freq=list(lines), **par)
+                        else:
+                            alg.mpe(list(lines), *[par[k] for k in (EFDD_MPE_ORDER if efdd else FDD_MPE_ORDER)[1:]])
+                        refs.append(_res_modes(alg.result))
+                    except Exception as e:
+                        refs.append(type(e).__name__)
+                if isinstance(refs[0], str) or isinstance(refs[1], str) or not _same_modes(refs[0], refs[1]):
+                    ctx.fail("oracle", "%s.mpe(sel_freq, ...) called positionally (published order %s) and with keywords gives different modes (%s)" % (
+                        nm, (EFDD_MPE_ORDER if efdd else FDD_MPE_ORDER), [r if isinstance(r, str) else "ok" for r in refs]), case, key="C16:FDD:call-form")
+                elif not _same_modes(mine, refs[0]):
+                    ctx.fail("oracle", "%s: the modes stored by mpe_from_plot are not the modes of the selected lines %s: Fn %s, mpe(sel_freq = those lines) gives %s"
+                             % (nm, lines, np.asarray(mine["Fn"]).reshape(-1).tolist(), np.asarray(refs[0]["Fn"]).reshape(-1).tolist()), case, key="C16:FDD:handover-mode")
+                # (c) FDD: lines picked at strict band peaks are returned themselves, with their own singular vector
+                if not efdd:
+                    Svec = np.asarray(alg.result.S_vec)
+                    Fn = np.asarray(mine["Fn"]).reshape(-1)
+                    for k, f in enumerate(lines):
+                        idx = int(np.argmin(np.abs(freq - f)))
+                        if idx not in peaks or freq[idx] != f:
+                            ctx.not_judged += 1
+                            continue
+                        phi = Svec[0, :, idx]
+                        phi = phi / phi[np.argmax(np.abs(phi))]
+                        if Fn[k] != f or not _same(np.asarray(mine["Phi"])[:, k], phi):
+                            ctx.fail("oracle", "%s: line %g was picked (a strict peak of the singular value ratio within +-%g Hz); the mode stored at its position has "
+                                     "frequency %g / another line's shape" % (nm, f, DF, Fn[k]), case, key="C16:FDD:handover-mode")
+                            break
+    finally:
+        for n in orig:
+            setattr(fdd_funcs, n, orig[n])
 
 
 def near_tie(T, script, rel=1e-9):
@@ -1054,9 +1431,9 @@ def _tab_from_json(c):
 
 
 def _run(ctx):
-    from pyoma2.algorithms import EFDD, FDD, SSIcov, SSIdat, pLSCF
+    from pyoma2.algorithms import EFDD, EFDD_MS, FDD, FDD_MS, FSDD, SSIcov, SSIcov_MS, SSIdat, SSIdat_MS, pLSCF, pLSCF_MS
     from pyoma2.functions import fdd as fdd_funcs
-    from pyoma2.setup import SingleSetup
+    from pyoma2.setup import MultiSetup_PreGER, SingleSetup
 
     rng, nrng = ctx.rng, ctx.np_rng
     ctx.extra["rule"] = ("a case = (dialog variant, pole table or frequency grid, event sequence); exhaustive enumeration of all sequences up to a length over a "
@@ -1076,11 +1453,30 @@ def _run(ctx):
     data = simulate(nrng)
     ss = SingleSetup(data, fs=20.0)
     algs = dict(SSI=SSIcov(name="SSI", br=10, ordmax=14), pLSCF=pLSCF(name="pLSCF", ordmax=10, nxseg=256), SSId=SSIdat(name="SSId", br=10, ordmax=14),
-                FDD=FDD(name="FDD", nxseg=256), EFDD=EFDD(name="EFDD", nxseg=256))
+                FDD=FDD(name="FDD", nxseg=256), EFDD=EFDD(name="EFDD", nxseg=256), FSDD=FSDD(name="FSDD", nxseg=256))
     ss.add_algorithms(*algs.values())
     for nm in algs:
         ss.run_by_name(nm)
-    real_tables = {nm: np.array(algs[nm].result.Fn_poles, dtype=float) for nm in ("SSI", "pLSCF", "SSId")}
+    # every multi-setup class that exposes mpe_from_plot, on a two-setup PreGER measurement (2 reference + 2 roving channels per setup)
+    ms = MultiSetup_PreGER(fs=20.0, ref_ind=[[0, 1], [0, 1]], datasets=[simulate(nrng, N=1200, nch=4), simulate(nrng, N=1200, nch=4)])
+    algs_ms = dict(SSI_MS=SSIcov_MS(name="SSI_MS", br=8, ordmax=10), SSId_MS=SSIdat_MS(name="SSId_MS", br=8, ordmax=10),
+                   pLSCF_MS=pLSCF_MS(name="pLSCF_MS", ordmax=8, nxseg=256), FDD_MS=FDD_MS(name="FDD_MS", nxseg=256), EFDD_MS=EFDD_MS(name="EFDD_MS", nxseg=256))
+    ms.add_algorithms(*algs_ms.values())
+    for nm in algs_ms:
+        ms.run_by_name(nm)
+    algs.update(algs_ms)
+    setup_of = {nm: (ms if nm in algs_ms else ss) for nm in algs}
+    # the classes behind each stabilisation-chart dialog; the streams below go round them table by table
+    hosts = {"SSI": ["SSI", "SSId", "SSI_MS", "SSId_MS"], "pLSCF": ["pLSCF", "pLSCF_MS"]}
+    turn = {"SSI": 0, "pLSCF": 0}
+
+    def host(variant):
+        nm = hosts[variant][turn[variant] % len(hosts[variant])]
+        turn[variant] += 1
+        return setup_of[nm], nm
+
+    real_names = ("SSI", "pLSCF", "SSId", "SSI_MS", "SSId_MS", "pLSCF_MS")
+    real_tables = {nm: np.array(algs[nm].result.Fn_poles, dtype=float) for nm in real_names}
     real_aux = {nm: (algs[nm].result.Xi_poles, algs[nm].result.Phi_poles, algs[nm].result.Lab, algs[nm].run_params.ordmax) for nm in real_tables}
 
     # ---- 1. corpus / replay first
@@ -1094,8 +1490,9 @@ def _run(ctx):
         rec, exc, result = drive(fake_algo(variant, tab, c.get("shape"), c.get("ordlim")), variant, script, freqlim=c.get("freqlim"))
         st.add_trace(script, rec, result)
         if variant in ("SSI", "pLSCF"):
-            inject(algs[variant], as_table(tab, c.get("shape")))
-            handover(ctx, st, ss, variant, variant, script, c.get("rtol"), hmeta)
+            for nm in hosts[variant]:
+                inject(algs[nm], as_table(tab, c.get("shape")))
+                handover(ctx, st, setup_of[nm], nm, variant, script, c.get("rtol"), hmeta)
 
     # ---- 2. exhaustive enumerations
     if ctx.quick():
@@ -1132,14 +1529,15 @@ def _run(ctx):
                 algo = fake_algo("FDD", table)
             else:
                 st = Store(ctx, variant, table, "display-limits", shape=table.shape, freqlim=fl, ordlim=ol)
-                inject(algs[variant], table)
+                hs_, hn_ = host(variant)
+                inject(algs[hn_], table)
             stores.append(st)
             for i, script in enumerate(add_quick_press(rng, h, 0.4) for h in edge_histories(rng, variant, xs, ys)):
                 if variant == "FDD":
                     rec, exc, result = drive(algo, "FDD", script, enum=bool(i % 2), freqlim=fl)
                     st.add_trace(script, rec, result)
                 else:
-                    handover(ctx, st, ss, variant, variant, script, rng.choice([None, 0.0]), hmeta, enum=bool(i % 2))
+                    handover(ctx, st, hs_, hn_, variant, script, rng.choice([None, 0.0]), hmeta, enum=bool(i % 2))
                     rec = _SESSION["rec"] or []
                 ctx.count(dict(v=variant, limits=[fl, ol], table=jsonable(st.T.raw), s=script), nontrivial=any(len(x[1]) > 0 for x in rec))
                 nedge += 1
@@ -1152,9 +1550,10 @@ def _run(ctx):
             A, hs = stable_base(rng)
             st = Store(ctx, variant, A, "stable-poles", shape=A.shape)
             stores.append(st)
-            inject(algs[variant], A)
+            hs_, hn_ = host(variant)
+            inject(algs[hn_], A)
             for i, script in enumerate(add_quick_press(rng, h, 0.5) for h in hs):
-                handover(ctx, st, ss, variant, variant, script, rng.choice([None, 0.0, 1.0 / 64]), hmeta, enum=bool(i % 2))
+                handover(ctx, st, hs_, hn_, variant, script, rng.choice([None, 0.0, 1.0 / 64]), hmeta, enum=bool(i % 2))
                 rec = _SESSION["rec"] or []
                 ctx.count(dict(v=variant, stable=True, table=jsonable(st.T.raw), s=script), nontrivial=any(len(x[1]) > 0 for x in rec))
                 ctx.hist("session closed via", _SESSION.get("closed_via"))
@@ -1171,7 +1570,8 @@ def _run(ctx):
                 algo = fake_algo("FDD", table)
             else:
                 st = Store(ctx, variant, table, "structured", shape=table.shape)
-                inject(algs[variant], table)
+                hs_, hn_ = host(variant)
+                inject(algs[hn_], table)
             stores.append(st)
             ctx.hist("structured: orders in frequency order", " ".join(str(o) for _, o in picks) if variant != "FDD" else "FDD k=%d" % len(picks))
             for i, script in enumerate(add_quick_press(rng, h, 0.6) for h in structured_histories(rng, variant, picks, table)):
@@ -1179,7 +1579,7 @@ def _run(ctx):
                     rec, exc, result = drive(algo, "FDD", script, enum=bool(i % 2))
                     st.add_trace(script, rec, result)
                 else:
-                    handover(ctx, st, ss, variant, variant, script, rng.choice([None, 1.0 / 64, 0.0]), hmeta, enum=bool(i % 2))
+                    handover(ctx, st, hs_, hn_, variant, script, rng.choice([None, 1.0 / 64, 0.0]), hmeta, enum=bool(i % 2))
                     rec = _SESSION["rec"] or []
                 ctx.count(dict(v=variant, structured=True, table=jsonable(st.T.raw), s=script), nontrivial=any(len(x[1]) > 0 for x in rec))
                 nstruct += 1
@@ -1197,16 +1597,32 @@ def _run(ctx):
                 fl = (lo, lo + dy(rng, 1, 30))
             st = Store(ctx, variant, A, "random:%s" % kind, shape=A.shape, freqlim=fl)
             stores.append(st)
-            inject(algs[variant], A)
+            hs_, hn_ = host(variant)
+            inject(algs[hn_], A)
             ctx.hist("table shape (rows x orders)", "%dx%d" % A.shape)
             ctx.hist("table kind", kind)
             for s in range(ctx.n(6, 8)):
                 script = random_script(rng, variant, A)
                 rtol = rng.choice([None, None, 1.0 / 64, 0.0, 0.25])
                 n0 = len(ctx.failures)
-                handover(ctx, st, ss, variant, variant, script, rtol, hmeta, enum=bool(s % 2))
+                handover(ctx, st, hs_, hn_, variant, script, rtol, hmeta, enum=bool(s % 2))
                 rec = _SESSION["rec"] or []
                 ctx.count(dict(v=variant, table=A.tolist(), s=script), nontrivial=any(len(x[1]) > 0 for x in rec))
+                if s == 0 and t % 2 == 0:
+                    # the same acting events with inert events (motion, scroll, release, other keys / buttons, clicks outside the axes)
+                    # interleaved: the selection handed on must be the same, entry by entry (C16_same_acting_same_selection)
+                    fin0 = list(rec[-1][1:]) if rec else None
+                    pool = [float(v) for v in A.flatten() if not np.isnan(v)]
+                    script2 = interleave_inert(rng, script, pool)
+                    handover(ctx, st, hs_, hn_, variant, script2, rtol, hmeta, enum=bool(t % 2))
+                    rec2 = _SESSION["rec"] or []
+                    ctx.count(dict(v=variant, table=A.tolist(), s=script2, inert=True), nontrivial=any(len(x[1]) > 0 for x in rec2))
+                    if fin0 is not None and rec2 and not _is_bad(rec[-1]) and not _is_bad(rec2[-1]) and to_state(rec[-1])[1] != to_state(rec2[-1])[1]:
+                        ctx.fail("oracle", "SelFromPlot (%s): events that neither pick nor deselect (pointer motion, scrolling, button release, other keys / buttons, "
+                                 "clicks outside the axes) changed the selection handed on: %s without them, %s with them"
+                                 % (variant, fmt_sel(to_state(rec[-1])[1]), fmt_sel(to_state(rec2[-1])[1])), st.case(script2, without=[list(a) for a in script]),
+                                 key="C16:%s:inert-event" % variant)
+                    ctx.hist("inert events interleaved", variant)
                 ctx.hist("sequence length", len(script))
                 for a in script:
                     ctx.hist("action", a[0] if a[0] != "c" else "click-button-%s" % a[1])
@@ -1239,8 +1655,8 @@ def _run(ctx):
             ctx.count(dict(v="FDD", table=grid, s=script), nontrivial=any(len(x[1]) > 0 for x in rec))
 
     # ---- 4. real tables: SingleSetup + SSIcov / SSIdat / pLSCF run, scripted clicks at real poles, mpe_from_plot; a few with real drawing
-    for nm in ("SSI", "pLSCF", "SSId"):
-        variant = "pLSCF" if nm == "pLSCF" else "SSI"
+    for nm in real_names:
+        variant = "pLSCF" if nm.startswith("pLSCF") else "SSI"
         A = real_tables[nm]
         alg = algs[nm]
         alg.result.Fn_poles = A
@@ -1281,82 +1697,19 @@ def _run(ctx):
             if draw:
                 set_mode(True)
             try:
-                handover(ctx, st, ss, nm, variant, script, None if s % 2 else 0.02, hmeta)
+                handover(ctx, st, setup_of[nm], nm, variant, script, None if s % 2 else 0.02, hmeta)
             finally:
                 if draw:
                     set_mode(False)
             rec = _SESSION["rec"] or []
             ctx.count(dict(v=nm, real=True, s=script, draw=draw), nontrivial=any(len(x[1]) > 0 for x in rec))
             ctx.hist("real-run hand-over", "%s%s" % (nm, " draw" if draw else ""))
-    # FDD / EFDD: the frequencies handed to the extraction function are the selection
-    seen = {}
-    orig = {n: getattr(fdd_funcs, n) for n in ("FDD_mpe", "EFDD_mpe")}
-
-    def wrap(n):
-        sig = inspect.signature(orig[n])
-
-        def w(*a, **k):
-            seen[n] = list(sig.bind(*a, **k).arguments["sel_freq"])
-            return orig[n](*a, **k)
-
-        return w
-
-    try:
-        for n in orig:
-            setattr(fdd_funcs, n, wrap(n))
-        for nm in ("FDD", "EFDD"):
-            alg = algs[nm]
-            freq = np.asarray(alg.result.freq, dtype=float)
-            df = float(freq[1] - freq[0])
-            for s in range(ctx.n(4, 12)):
-                targets = [1.5, 6.8, 4.2] if s % 2 == 0 else [6.8, 1.5]
-                fl = None
-                if s % 2 == 1 or s == 0:
-                    # explicit band with both edges between two real grid lines (3/4 of the way to the next line); the clicks
-                    # just inside the edges designate the line just OUTSIDE the band (e.g. freqlim=(1, 7.56), click 7.557 -> 7.578)
-                    k1, k2 = int(round(1.0 / df)) + (s // 2), int(round(7.5 / df)) - (s // 2)
-                    fl = (float(freq[k1]) + 0.25 * df, float(freq[k2]) + 0.75 * df)
-                    targets = targets + [fl[1] - 0.03 * df, fl[0] + 0.03 * df]
-                st = Store(ctx, "FDD", freq.tolist(), "real-run:%s" % nm, freqlim=fl)
-                stores.append(st)
-                script = [("kd",)] + [("c", 1, f + rng.choice([0.0, 0.01, -0.02]), float(rng.randint(-40, 5))) for f in targets]
-                if s % 3 == 1:
-                    script.append(("c", 2, targets[0] + 0.05, 0.0))
-                if s % 3 == 2:
-                    script.append(("c", 3, 0.0, 0.0))
-                script = add_quick_press(rng, tuple(script), 0.5)
-                draw = s == 0
-                if draw:
-                    set_mode(True)
-                _SESSION.update(script=script, rec=None, exc=None, obj=None, enum=bool(s % 2))
-                seen.clear()
-                err = None
-                try:
-                    ss.mpe_from_plot(nm, **({} if fl is None else dict(freqlim=fl)))
-                except Exception as e:  # the extraction itself (peak fitting) is not the subject here
-                    err = type(e).__name__
-                finally:
-                    if draw:
-                        set_mode(False)
-                rec, obj = _SESSION["rec"], _SESSION["obj"]
-                if not rec:
-                    ctx.fail("oracle", "%s.mpe_from_plot never opened the dialog (%s)" % (nm, err), st.case(script), key="C16:FDD:handover")
-                    continue
-                fin = st.add_trace(script, rec, getattr(obj, "result", "missing"))
-                ctx.count(dict(v=nm, real=True, s=script, draw=draw), nontrivial=True)
-                ctx.hist("real-run hand-over", "%s%s" % (nm, " draw" if draw else ""))
-                if fin is None:
-                    continue
-                got = seen.get(nm + "_mpe")
-                if got is None or Counter(Fraction(float(f)) for f in got) != Counter(f for f, _ in fin[1]):
-                    ctx.fail("oracle", "%s.mpe_from_plot handed %s to the extraction, the dialog selection is %s" % (nm, got, fmt_sel(fin[1])), st.case(script),
-                             key="C16:FDD:handover")
-                elif err is None and len(np.asarray(alg.result.Fn).reshape(-1)) != len(fin[1]):
-                    ctx.fail("oracle", "%s.mpe_from_plot: number of extracted modes differs from the number of selected lines" % nm, st.case(script), key="C16:FDD:handover")
-    finally:
-        for n in orig:
-            setattr(fdd_funcs, n, orig[n])
+    # FDD / EFDD / FSDD / FDD_MS / EFDD_MS: the frequencies handed to the extraction function are the selection, and the modes stored
+    # afterwards are those lines' modes
+    fdd_handover(ctx, rng, algs, setup_of, stores, fdd_funcs)
 
     # ---- 5. the Coq side: checker on every distinct transition, model of the extraction on every hand-over
-    evaluate(ctx, stores)
-    evaluate_handover(ctx, hmeta)
+    batch = Batch()
+    evaluate(ctx, stores, batch)
+    evaluate_handover(ctx, hmeta, batch)
+    batch.run(ctx)
